@@ -64,19 +64,21 @@ def group_labels(rng, n, kind, typ):
     return labs
 
 
-def _str_labels(ints):
+def _str_labels(ints, uni=False):
     table = {}
     out = []
     for x in ints:
         if x not in table:
             table[x] = 'g%d' % (len(table) * 9 + 2) if len(table) % 2 == 0 else 'G%d' % (len(table) * 3 + 10)
+            if uni and len(table) % 3 == 0:
+                table[x] = 'ü' + table[x]
         out.append(table[x])
     return out
 
 
 def gen_grouping(rng, n, kinds=('unique', 'groups', 'allsame'), allow_allsame=True, typ=None):
     kind = rng.pick([k for k in kinds if allow_allsame or k != 'allsame'])
-    typ = typ or rng.pick(['int', 'str'])
+    typ = typ or rng.pick(['int', 'str', 'int', 'str', 'float'])
     cont = rng.pick(['list', 'array'])
     if kind == 'unique':
         labs = list(range(n))
@@ -90,7 +92,9 @@ def gen_grouping(rng, n, kinds=('unique', 'groups', 'allsame'), allow_allsame=Tr
         rng.shuffle(labs)
         labs = [x * 2 + 3 for x in labs]
     if typ == 'str':
-        labs = _str_labels(labs)
+        labs = _str_labels(labs, uni=rng.chance(0.2))
+    elif typ == 'float':
+        labs = [x + 0.5 for x in labs]
     return {'values': labs, 'container': cont, 'kind': kind, 'type': typ}
 
 
@@ -148,6 +152,8 @@ def build_rdms(spec, value_fn=enc, all_rdm_nan=False):
     pat_desc = {'uid': list(cu)}
     for k, d in spec.get('pat_desc', {}).items():
         pat_desc[k] = _container(d)
+    if spec.get('order') == 'F':
+        vecs = np.asfortranarray(vecs)       # a non-C-contiguous input array
     return RDMs(vecs, dissimilarity_measure=spec.get('measure'),
                 descriptors=dict(spec.get('descriptors', {})),
                 rdm_descriptors=rdm_desc, pattern_descriptors=pat_desc)
